@@ -23,10 +23,13 @@ def cases(ctx):
     out = []
     for mode in range(8):
         out.append({"id": "display precision|mode=%d" % mode, "mode": mode, "weight": 20})
+    out += rounding_kernel_obligations(ctx)
     return out
 
 
 def run_case(ctx, case):
+    if case.get("delegate"):
+        return run_delegated(ctx, case)
     prog = ctx.program("dev")
     res = Res(case["id"])
     mode = case["mode"]
@@ -129,12 +132,23 @@ def model_render(c, p, P, mode, width, flags):
 
 
 def replay(ctx, native, v):
+    if v.get("info", {}).get("delegate"):
+        return replay_delegated(ctx, native, v)
     c, p, P, mode = v["inputs"]["c"], v["info"]["p"], v["info"]["P"], v["info"]["mode"]
     Pn = None if P is None else (40 if P == "big" else P)
-    line = "%d fmt %s %s - -" % (mode, fmt_dec(c, p), "-" if Pn is None else str(Pn))
-    obs = native["dev"].ask(line)
-    exp = "STR " + model_render(c, p, Pn, mode, None, "")
-    return {"reproduced": obs != exp, "line": line, "observed": obs, "expected": exp, "profile": "dev"}
+    # the counterexample fixes value, precision and mode; width and flags are environment inputs the VC leaves open, so a small grid of
+    # them is rendered natively and compared with the statement's model
+    first = None
+    for w in (None, 0, 3, 12, 30, 60):
+        for fl in ("", "+", "0", "+0", "<", "*^", ">+"):
+            line = "%d fmt %s %s %s %s" % (mode, fmt_dec(c, p), "-" if Pn is None else str(Pn), "-" if w is None else w, fl if fl else "-")
+            obs = native["dev"].ask(line)
+            exp = "STR " + model_render(c, p, Pn, mode, w, fl)
+            if first is None:
+                first = (line, obs, exp)
+            if obs != exp:
+                return {"reproduced": True, "line": line, "observed": obs, "expected": exp, "profile": "dev"}
+    return {"reproduced": False, "line": first[0], "observed": first[1], "expected": first[2], "profile": "dev"}
 
 
 def confirm_known(ctx, native, ent):
@@ -157,6 +171,6 @@ def cosim(ctx, native):
         obs = native["dev"].ask("%d fmt %s %s %s %s" % (mode, fmt_dec(c, p), "-" if P is None else P, "-" if w is None else w, fl if fl else "-"))
         exp = "STR " + model_render(c, p, P, mode, w, fl)
         if obs != exp:
-            raise RuntimeError("format (%d,%d) P=%s w=%s flags=%r mode=%d: native %r vs model %r" % (c, p, P, w, fl, mode, obs, exp))
+            raise NativeViolation("%d fmt %s %s %s %s" % (mode, fmt_dec(c, p), "-" if P is None else P, "-" if w is None else w, fl if fl else "-"), obs, exp)
         n += 1
     return n
